@@ -3,7 +3,8 @@ From FL Require Export Engine.Model.
 Open Scope Z_scope.
 
 Record obs_entry := { oe_id : nat; oe_kind : kind; oe_txid : option nat; oe_postings : list posting;
-                      oe_ref : N; oe_ik : N; oe_reverts : option nat }.
+                      oe_ref : N; oe_ik : N; oe_reverts : option nat;
+                      oe_meta : N (* metadata entry: interned (target, content), as [rq_meta] *) }.
 
 Record ecase := {
   ec_setup : list action;            (* the sequential setup history (its own commander generation) *)
@@ -16,7 +17,8 @@ Record ecase := {
   ec_final_choices : nat;            (* the number of choices it had when it stopped (0: nothing left to do; requests
                                         may remain, e.g. waiting for a lock nobody will release) *)
   ec_disk : list obs_entry;          (* what is on disk at the end *)
-  ec_resps : list (tid * response);
+  ec_resps : list (tid * option response);   (* None: answered in a way the model has no class for (a panic, an
+                                                unknown error): never agrees with the model *)
   ec_events : list (tid * kind * option nat * option nat)   (* published: tid, kind, txid, reverted *)
 }.
 
@@ -35,12 +37,12 @@ Fixpoint list_eqb {A B} (eqb : A -> B -> bool) (l1 : list A) (l2 : list B) : boo
 Definition entry_obs_eqb (e : entry) (o : obs_entry) : bool :=
   Nat.eqb (e_id e) (oe_id o) && kind_eqb (e_kind e) (oe_kind o) && onat_eqb (e_txid e) (oe_txid o) &&
   list_eqb posting_eqb (e_postings e) (oe_postings o) && N.eqb (e_ref e) (oe_ref o) && N.eqb (e_ik e) (oe_ik o) &&
-  onat_eqb (e_reverts e) (oe_reverts o).
+  onat_eqb (e_reverts e) (oe_reverts o) && N.eqb (e_meta e) (oe_meta o).
 Definition eclass_eqb (a b : eclass) : bool :=
   match a, b with
   | EIkBusy, EIkBusy | EConflict, EConflict | ENotFound, ENotFound | EAlreadyReverted, EAlreadyReverted
   | ERevertOccurring, ERevertOccurring | EInsufficient, EInsufficient | ENoPostings, ENoPostings
-  | EKindMismatch, EKindMismatch | ELockCancelled, ELockCancelled | EStoreRead, EStoreRead
+  | EKeyReused, EKeyReused | ELockCancelled, ELockCancelled | EStoreRead, EStoreRead
   | ECompilationFailed, ECompilationFailed => true
   | _, _ => false
   end.
@@ -109,7 +111,7 @@ Definition check_case (c : ecase) : bool :=
   | Some s =>
       list_eqb entry_obs_eqb (persisted s) (ec_disk c) &&
       forallb (fun r => match get_thread (threads s) (fst r) with
-                        | Some th => match t_resp th with Some x => response_eqb x (snd r) | None => false end
+                        | Some th => match t_resp th, snd r with Some x, Some y => response_eqb x y | _, _ => false end
                         | None => false end) (ec_resps c) &&
       list_eqb (fun e o => let '(t, k, x, rv) := o in
                   Nat.eqb (ev_tid e) t && kind_eqb (ev_kind e) k && onat_eqb (ev_txid e) x && onat_eqb (ev_reverted e) rv)
